@@ -1,7 +1,7 @@
 (* C16 — wiring calls are validated and atomic; pin names are never confused.
    Only statements and `exact`; proofs in theories/WiringProofs.v and theories/NamesProofs.v. *)
 From Coq Require Import List String Arith Bool.
-From Lekkersim Require Import Base Network Wiring WiringProofs Names NamesProofs.
+From Lekkersim Require Import Base Network Wiring WiringProofs WiringInv WiringRep WiringRep2 Names NamesProofs.
 Import ListNotations.
 
 (* a pin takes part in at most one connection: any other partner is refused, whichever argument
@@ -22,15 +22,28 @@ Theorem C16_connect_idempotent s x y :
 Proof. exact (connect_idempotent s x y). Qed.
 
 (* every validation failure of connect (same structure, pin occupied, pin not a free pin of the
-   solver) leaves the circuit exactly as it was.  PARTIAL: the remaining case — validation passed
-   but a stale per-structure table refuses the link — is excluded by the consistency invariant of
-   the per-structure tables, which is tied by correspondence, not yet proved (DESIGN.md §8). *)
-Theorem C16_connect_validation_atomic_partial s x y s' e :
+   solver) leaves the circuit exactly as it was, in ANY state *)
+Theorem C16_connect_validation_atomic s x y s' e :
   step s (Connect x y) = (s', Some e) ->
   s' = s \/
   (Nat.eqb (fst x) (fst y) = false /\ mem x (w_clist s) = false /\ mem y (w_clist s) = false /\
    mem x (w_free s) = true /\ mem y (w_free s) = true).
 Proof. exact (connect_validation_atomic s x y s' e). Qed.
+
+(* ... and the remaining case cannot occur: after ANY history of add / connect / cut / remove / prune / map /
+   raise / solve calls (accepted or rejected, in any order) a rejected connect or add leaves every table of the
+   solver AND of every structure exactly as it was.  Proved through the representation invariant [Rep]
+   (WiringRep.v, WiringRep2.v), which holds in every reachable state. *)
+Theorem C16_rejected_call_changes_nothing ops o s' e :
+  (exists x y, o = Connect x y) \/ (exists id n, o = Add id n) ->
+  step (run w_empty ops) o = (s', Some e) -> s' = run w_empty ops.
+Proof. exact (rejected_call_changes_nothing_anywhere ops o s' e). Qed.
+
+(* cut_structure / remove_structure are all-or-nothing as well *)
+Theorem C16_detach_all_or_nothing ops id s' e :
+  step (run w_empty ops) (Cut id) = (s', Some e) \/ step (run w_empty ops) (Remove id) = (s', Some e) ->
+  s' = run w_empty ops /\ e = ENotPresent.
+Proof. exact (detach_all_or_nothing ops id s' e). Qed.
 
 Theorem C16_add_present_rejected s id n :
   nmem id (w_structs s) = true -> step s (Add id n) = (s, Some EAlreadyPresent).
@@ -59,7 +72,9 @@ Proof. exact (rename_addressable ren pins t old new). Qed.
 
 Print Assumptions C16_one_connection_per_pin.
 Print Assumptions C16_connect_idempotent.
-Print Assumptions C16_connect_validation_atomic_partial.
+Print Assumptions C16_connect_validation_atomic.
+Print Assumptions C16_rejected_call_changes_nothing.
+Print Assumptions C16_detach_all_or_nothing.
 Print Assumptions C16_add_present_rejected.
 Print Assumptions C16_name_collision_rejected.
 Print Assumptions C16_names_resolve.
